@@ -61,13 +61,6 @@ CLASSES = {
         and str(case.get("cffi")) == str(case.get("exact")),
 }
 
-# Until the line is added to KNOWN_FINDINGS.jsonl by the lead, the class registers itself.
-SELF_FINDINGS = [
-    {"property": "C09", "class": "C09/unsigned-typed-operand",
-     "witness": {"expr": "1u - 2", "c": 4294967295, "cffi": -1},
-     "what": "constant expressions with an unsigned-typed operand are evaluated on unbounded integers: "
-             "enum{Z = 1u-2} gives -1 (C: 4294967295), int a[0xFFFFFFFF+1] gives 2**32 (C: 0)"},
-]
 
 BINOPS = {"add": "+", "sub": "-", "mul": "*", "div": "/", "mod": "%", "shl": "<<", "shr": ">>",
           "band": "&", "bor": "|", "bxor": "^"}
@@ -687,7 +680,7 @@ def run_batch(ctx, n, oracle_only=False, directed=False):
                     if bad:
                         want = "err:cdef"                   # _process_macros raises CDefError first
                 if got != want:
-                    ctx.disagree(case_of(c, form), got, want, "cffi in-line vs model of _parse_constant")
+                    _disagree(ctx, case_of(c, form), got, want, "cffi in-line vs model of _parse_constant")
             # --- oracle
             prev_defined = True
             if form == "enumref":
@@ -727,7 +720,7 @@ def run_batch(ctx, n, oracle_only=False, directed=False):
                     # no match: a plain variable is declared; reading lib.NAME then needs the symbol
                     want = None if lm == "nomatch" else lm
                 if not oracle_only and want is not None and got != want:
-                    ctx.disagree(case_of(c, form), got, want, "cffi in-line vs model of _add_integer_constant")
+                    _disagree(ctx, case_of(c, form), got, want, "cffi in-line vs model of _add_integer_constant")
                 if lspec is not None:
                     gcc_items.append(((idx, form), [], lt, True))
                     if isinstance(got, int):
@@ -836,15 +829,25 @@ def check_outline(ctx, outline, gcc_res, depth=0):
 
 # ---------------------------------------------------------------- entry points
 
+def translators(ctx):
+    sys.path.insert(0, os.path.join(common.VERIF, "translate"))
+    import constexpr_py
+    return [constexpr_py.run]
+
+
+def _disagree(ctx, case, impl, model, what):
+    """Record a model-vs-implementation disagreement and make it visible in the log."""
+    line = "DISAGREEMENT %s: %s | impl=%r model=%r | %s" % (ctx.prop, what, impl, model,
+                                                        case.get("expr") or case.get("decl"))
+    if len(ctx.disagreements) < 25:          # enough to diagnose from the log alone, no flood
+        common.log(line[:300])
+    ctx.disagree(case, impl, model, what)
+
+
 def _setup(ctx):
     warnings.simplefilter("ignore")
     if ctx.scratch not in sys.path:
         sys.path.insert(0, ctx.scratch)
-    have = set(f["class"] for f in ctx.findings)
-    for f in SELF_FINDINGS:
-        if f["class"] not in have:
-            ctx.findings.append(f)
-            ctx.open_findings.append(f)
 
 
 def correspond(ctx):
